@@ -8,7 +8,7 @@
      HD id hex                  obs            DecodeADTSHeader on arbitrary bytes
      HX id ot sfi ch bf lo hi   hash           Encode + Decode for every payload length lo..hi
      EN id ot f                 cls hex        SetAACDescriptor: the encoded mp4a sample entry
-     ED id hex                  obs            mp4.DecodeBox on the bytes of an mp4a entry
+     ED id hex                  obs            mp4.DecodeBox on the bytes of an mp4a entry (ES: mp4.DecodeBoxSR)
      BW id ops flush            hex            bits.Writer: ops = v:w;... (hex value, decimal width), Flush if flush=1
      BR id hex widths           obs            bits.Reader: Read(w) for each width: value/err,...
    ED cases outside the modelled decoder path are answered "SKIP <id>" *)
@@ -121,17 +121,19 @@ let () =
           | _ -> "err\t-" in
         if m = cls ^ "\t" ^ hex then Printf.printf "OK %s\n" id
         else Printf.printf "MISMATCH %s SetAACDescriptor model=%s\n" id m
-      | ["ED"; id; hex; obs] ->
+      | [("ED" | "ES") as kind; id; hex; obs] ->
         let data = bytes_of_hex hex in
-        (match decode_entry data with
+        let (dec, casc, what) = if kind = "ED" then (decode_entry data, entry_asc, "DecodeBox(mp4a)")
+          else (decode_entry_sr data, entry_asc_sr, "DecodeBoxSR(mp4a)") in
+        (match dec with
          | EUnmodelled -> Printf.printf "SKIP %s\n" id
          | r ->
            let m = match r with
              | EOk e ->
-               let a = match entry_asc data with EOk a -> asc_obs (Ok a) | _ -> "err" in
+               let a = match casc data with EOk a -> asc_obs (Ok a) | _ -> "err" in
                Printf.sprintf "ok/%d/%d/%d/%d/%s/%s" (int_of_n e.e_dri) (int_of_n e.e_cc) (int_of_n e.e_ss)
                  (int_of_n e.e_rate) (hex_of_bytes e.e_dc) a
              | _ -> "err" in
            if m = obs then Printf.printf "OK %s\n" id
-           else Printf.printf "MISMATCH %s DecodeBox(mp4a) model=%s\n" id m)
+           else Printf.printf "MISMATCH %s %s model=%s\n" id what m)
       | _ -> Printf.printf "BADLINE %s\n" line)
